@@ -136,8 +136,10 @@ impl SyncComparison {
                 // Need to push changes to remote
                 let log = storage.identity_log().await?;
                 let reader = log.read().await;
-                let is_last_commit = Some(&self.remote_status.identity.0)
-                    == reader.tree().last_commit().as_ref();
+                // The same event may occur more than once in a log
+                // so compare positions, not commit hashes
+                let is_last_commit =
+                    self.remote_status.identity.1.len() == reader.tree().len();
 
                 // Avoid empty patches when commit is already the last
                 if !is_last_commit {
@@ -170,8 +172,10 @@ impl SyncComparison {
                 let log = storage.account_log().await?;
                 let reader = log.read().await;
 
-                let is_last_commit = Some(&self.remote_status.account.0)
-                    == reader.tree().last_commit().as_ref();
+                // The same event may occur more than once in a log
+                // so compare positions, not commit hashes
+                let is_last_commit =
+                    self.remote_status.account.1.len() == reader.tree().len();
 
                 // Avoid empty patches when commit is already the last
                 if !is_last_commit {
@@ -204,8 +208,10 @@ impl SyncComparison {
                 let log = storage.device_log().await?;
                 let reader = log.read().await;
 
-                let is_last_commit = Some(&self.remote_status.device.0)
-                    == reader.tree().last_commit().as_ref();
+                // The same event may occur more than once in a log
+                // so compare positions, not commit hashes
+                let is_last_commit =
+                    self.remote_status.device.1.len() == reader.tree().len();
 
                 // Avoid empty patches when commit is already the last
                 if !is_last_commit {
@@ -244,8 +250,10 @@ impl SyncComparison {
                         let log = storage.file_log().await?;
                         let reader = log.read().await;
 
-                        let is_last_commit = Some(&remote_files.0)
-                            == reader.tree().last_commit().as_ref();
+                        // The same event may occur more than once in a
+                        // log so compare positions, not commit hashes
+                        let is_last_commit =
+                            remote_files.1.len() == reader.tree().len();
 
                         // Avoid empty patches when commit is already the last
                         if !is_last_commit {
